@@ -198,20 +198,57 @@ def run(prog: Program, rep, thorough: bool) -> None:
                  f'a failed attempt does not leave the shot as it was', list(e.chain))
     else:
         rep.ok('C02.R2', bet.where, 'no store into the shot while the zero is being found')
-    stores = [n for n in ast.walk(swz.node) if isinstance(n, ast.Attribute) and isinstance(n.ctx, ast.Store)]
-    ok = False
-    if len(stores) == 1 and norm(stores[0]) == f'{swz.positional[1]}.weapon.zero_elevation':
-        p = parent(stores[0])
-        if isinstance(p, ast.Assign) and isinstance(p.value, ast.Call) and \
-                norm(p.value.func) == 'self.barrel_elevation_for_target' and \
-                [norm(a) for a in p.value.args] == swz.positional[1:3]:
-            ok = True
-    if ok:
-        rep.ok('C02.R2', swz.where, 'the only store is zero_elevation = barrel_elevation_for_target(shot, distance): an '
-               'exception leaves before the store')
+    # set_weapon_zero by evaluation: the search is replaced by a recorder; at the moment it is called the weapon must
+    # still hold its old zero (so an exception from the search leaves it untouched), afterwards the zero found
+    ifm = prog.module(C.M_IF)
+    at_call = []
+
+    def h_bet(ev_, func, args, kwargs, st_, self_val):
+        w_ = st_.heap[shot_i.oid].get('weapon')
+        at_call.append((st_.heap[w_.oid].get('zero_elevation') if isinstance(w_, Inst) else None, list(args)))
+        for o_, name_ in ((shot_i, 'shot'), (weapon_i, 'shot.weapon')):
+            for k_, v0 in initial[o_.oid].items():
+                v1 = st_.heap[o_.oid].get(k_)
+                if v1 is not v0:
+                    changed.append(f'{name_}.{k_} is {ev_.describe(v1) if v1 is not None else None} (was {ev_.describe(v0)})')
+        return SymObj('zero@found')
+    ev2 = Evaluator(prog, hooks={f'call:{bet.qualname}': h_bet, **C.no_wrap_hooks()})
+    st2 = State()
+    weapon_i = ev2.new_inst(st2, prog.cls(C.M_MUN, 'Weapon'), {'zero_elevation': SymObj('zero@old'), 'sight_height': SymObj('sh'),
+                                                              'twist': SymObj('tw'), 'sight': NONE})
+    shot_i = ev2.new_inst(st2, prog.cls(C.M_COND, 'Shot'), {'weapon': weapon_i, 'ammo': SymObj('ammo'), 'atmo': SymObj('atmo'),
+                                                           '_winds': SymObj('winds'), 'look_angle': SymObj('look'),
+                                                           'relative_angle': SymObj('rel'), 'cant_angle': SymObj('cant')})
+    calc_i = ev2.new_inst(st2, prog.cls(C.M_IF, 'Calculator'), {'_calc': SymObj('solver'), '_config': SymObj('cfg')})
+    initial = {o_.oid: dict(st2.heap[o_.oid]) for o_ in (shot_i, weapon_i)}
+    changed: List[str] = []
+    try:
+        tree2, _st2 = ev2.run_func(swz, {swz.positional[0]: calc_i, swz.positional[1]: shot_i, swz.positional[2]: SymObj('dist')}, st2)
+    except Undecided as exc:
+        raise AnalysisError(f'set_weapon_zero: {exc}') from exc
+    problems = []
+    if not at_call:
+        raise AnalysisError('set_weapon_zero does not reach barrel_elevation_for_target in the abstract evaluation')
+    if changed:
+        problems.append(f'when the search starts {changed[0]}: a failed search does not leave the shot as it was')
+    for old, args_ in at_call:
+        if not (isinstance(old, SymObj) and old.path == 'zero@old'):
+            problems.append(f'the stored zero is already {old!r} when the search starts: a failed search leaves it changed')
+        if not (len(args_) >= 2 and args_[0] is shot_i and isinstance(args_[1], SymObj) and args_[1].path == 'dist'):
+            problems.append('the search is not run for this shot and the distance given')
+    for _p, leaf in leaves(tree2):
+        if leaf.kind == 'raise':
+            continue
+        z = leaf.state.heap[weapon_i.oid].get('zero_elevation')
+        if not all(isinstance(x, SymObj) and x.path == 'zero@found' for _cp, x in cond_leaves(z)):
+            problems.append(f'the zero stored is {z!r}, not the elevation found')
+        if leaf.state.heap[shot_i.oid].get('weapon') is not weapon_i:
+            problems.append('the shot no longer holds the weapon it was given')
+    if problems:
+        rep.fail('C02.R2', ifm.path, swz.node.lineno, swz.qualname, 'store-order', 'set_weapon_zero: ' + '; '.join(sorted(set(problems))))
     else:
-        rep.fail('C02.R2', prog.module(C.M_IF).path, swz.node.lineno, swz.qualname, 'store-order',
-                 f'set_weapon_zero stores {[norm(s) for s in stores]}: the stored zero can change before the search has succeeded')
+        rep.ok('C02.R2', swz.where, 'the weapon holds its old zero until barrel_elevation_for_target(shot, distance) has returned, '
+               'then the elevation found: an exception leaves before the store')
 
     # ---- R3 ------------------------------------------------------------------------------------
     searched: List[object] = []
@@ -300,7 +337,17 @@ def run(prog: Program, rep, thorough: bool) -> None:
             rep.ok('C02.R1', tc.where(lp), f'loop-carried {sorted(carried & read)} are initialised in zero_angle before the loop')
 
     # ---- R4 ------------------------------------------------------------------------------------
-    ev2 = Evaluator(prog, opaque={'_init_trajectory', '_integrate'})
+    # by evaluation: the statements before the loop, then one pass of the loop body with _integrate replaced by a
+    # recorder that hands back one row whose height is a symbol in metres
+    measured = []
+
+    def h_integrate(ev_, func, args, kwargs, st_, self_val):
+        a_ = list(args) + [kwargs[k] for k in func.positional[1 + len(args):] if k in kwargs]
+        measured.append(a_)
+        row = C.mk_row(ev_, st_, prog, 'row_', {'height': C.mk_quantity(ev_, st_, prog, 'Distance', 'Hraw', 'Meter'),
+                                               'distance': C.mk_quantity(ev_, st_, prog, 'Distance', 'Xraw', 'Meter')})
+        return ev_.new_list(st_, [row])
+    ev2 = Evaluator(prog, opaque={'_init_trajectory'}, hooks={'call:TrajectoryCalc._integrate': h_integrate, **C.no_wrap_hooks()})
     st = State()
     tcc = prog.cls(C.M_TC, 'TrajectoryCalc')
     cfgc = prog.cls(C.M_TC, 'Config')
@@ -311,58 +358,59 @@ def run(prog: Program, rep, thorough: bool) -> None:
         raise AnalysisError('zero_angle: expected one top-level loop')
     pre = za.node.body[:za.node.body.index(loops[0])]
     env = {za.positional[0]: selfv, za.positional[1]: SymObj('shot'),
-           za.positional[2]: C.mk_quantity(ev2, st, prog, 'Distance', 'Draw', 'Foot')}
+           za.positional[2]: C.mk_quantity(ev2, st, prog, 'Distance', 'Draw', 'Yard')}
     st.env.update(env)
+    zctx = Ctx(tc, za, None, 0)
     try:
-        t0 = ev2.exec_block(pre, st, Ctx(tc, za, None, 0))
+        t0 = ev2.exec_block(pre, st, zctx)
     except Undecided as exc:
         raise AnalysisError(f'zero_angle prefix: {exc}') from exc
-    if not isinstance(t0, Leaf):
-        raise AnalysisError('zero_angle: branching before the loop')
-    # distance in feet according to the analysed tables
+    starts = [lf.state for _p, lf in leaves(t0) if lf.kind == 'fall']
+    if not starts:
+        raise AnalysisError('zero_angle: the loop is not reached in the abstract evaluation')
     D = C.read_raw_in(ev2, prog, 'Distance', 'Draw', 'Foot')
     L = A.sym('L')
-    want = {'x': A.fn('cos', L) * D, 'y': A.fn('sin', L) * D}
-    found = {}
-    for n, v in t0.state.env.items():
-        if isinstance(v, Scalar):
-            for k, w in want.items():
-                if v.rf.equals(w):
-                    found[k] = n
-    if set(found) == {'x', 'y'}:
-        rep.ok('C02.R4', za.where, f'aim point: {found["x"]} = cos(look) d, {found["y"]} = sin(look) d (feet)')
+    want_x, want_y = A.fn('cos', L) * D, A.fn('sin', L) * D
+    H = C.read_raw_in(ev2, prog, 'Distance', 'Hraw', 'Foot')
+    want_err = A.fn('abs', H - want_y)
+    p_aim, p_int, p_err = [], [], []
+    n_pass = 0
+    for s0 in starts:
+        measured.clear()
+        try:
+            t1 = ev2.exec_block(list(loops[0].body), s0, zctx)
+        except Undecided as exc:
+            raise AnalysisError(f'zero_angle loop body: {exc}') from exc
+        if not measured:
+            raise AnalysisError('zero_angle: one pass of the loop does not reach _integrate in the abstract evaluation')
+        for a_ in measured:
+            if not (a_ and isinstance(a_[0], SymObj) and a_[0].path == 'shot'):
+                p_int.append('the measurement does not integrate the shot given')
+            rng = a_[1] if len(a_) > 1 else None
+            if not all(isinstance(x, Scalar) and x.rf.equals(want_x) for _cp, x in cond_leaves(rng)):
+                p_aim.append(f'the trajectory is integrated to {rng!r}, not to the horizontal distance of the aim point '
+                             f'cos(look) d = {want_x!r} (feet)')
+        for _p, lf in leaves(t1):
+            if lf.kind == 'raise':
+                continue
+            n_pass += 1
+            e_ = lf.state.env.get(err)
+            vals = [x for _cp, x in cond_leaves(e_)] if e_ is not None else []
+            if not vals or not all(isinstance(x, Scalar) and x.rf.equals(want_err) for x in vals):
+                p_err.append(f'after one pass `{err}` is {e_!r}, not |height of the measured row in feet - sin(look) d| = {want_err!r}')
+    if p_aim:
+        rep.fail('C02.R4', tc.path, za.node.lineno, za.qualname, 'aim-point', sorted(set(p_aim))[0])
     else:
-        rep.fail('C02.R4', tc.path, za.node.lineno, za.qualname, 'aim-point',
-                 f'the aim point is not (cos(look) d, sin(look) d): found {found}')
-    # integrate to that distance; error = |height - aim height|
-    ic = [c for c in ast.walk(loops[0]) if isinstance(c, ast.Call) and norm(c.func) == 'self._integrate']
-    if len(ic) == 1 and found.get('x') and len(ic[0].args) >= 2 and norm(ic[0].args[0]) == za.positional[1] \
-            and norm(ic[0].args[1]) == found['x']:
-        rep.ok('C02.R4', tc.where(ic[0]), f'trajectory integrated with the shot to {found["x"]}')
+        rep.ok('C02.R4', za.where, 'aim point: the trajectory is integrated to cos(look) d (feet, the distance given in yards)')
+    if p_int:
+        rep.fail('C02.R4', tc.path, loops[0].lineno, za.qualname, 'integrate-args', sorted(set(p_int))[0])
     else:
-        rep.fail('C02.R4', tc.path, loops[0].lineno, za.qualname, 'integrate-args',
-                 f'the measurement does not integrate this shot to the aim point\'s horizontal distance: '
-                 f'{[norm(c)[:60] for c in ic]}')
-    err_defs = [n for n in cfg.nodes if assigns(n, err) and err_from_measurement(n)]
-    ok_err = False
-    for n in err_defs:
-        v = n.ast.value
-        if isinstance(v, ast.Call) and (dotted(v.func) or '') in ('math.fabs', 'abs', 'fabs') and len(v.args) == 1 \
-                and isinstance(v.args[0], ast.BinOp) and isinstance(v.args[0].op, ast.Sub) and found.get('y') \
-                and found['y'] in (norm(v.args[0].left), norm(v.args[0].right)):
-            other = v.args[0].left if norm(v.args[0].right) == found['y'] else v.args[0].right
-            # the other operand is the height of the measured row in feet
-            if isinstance(other, ast.Name):
-                ds = [cfg.nodes[i] for i in deps.rd[n.id].get(other.id, set())]
-                if ds and all(isinstance(d.ast, ast.Assign) and '.height' in norm(d.ast.value)
-                              and C.unit_of_expr(prog, tc, d.ast.value.right) == 'Foot' if isinstance(d.ast.value, ast.BinOp)
-                              else False for d in ds):
-                    ok_err = True
-    if ok_err:
-        rep.ok('C02.R4', tc.where(err_defs[0].ast), 'error = |row height (ft) - aim height|')
+        rep.ok('C02.R4', tc.where(loops[0]), 'the measurement integrates the shot given')
+    if p_err:
+        rep.fail('C02.R4', tc.path, loops[0].lineno, za.qualname, 'error-def', 'the error is not |height of the measured row in feet - '
+                 'aim height|: ' + sorted(set(p_err))[0])
     else:
-        rep.fail('C02.R4', tc.path, (err_defs[0].line if err_defs else za.node.lineno), za.qualname, 'error-def',
-                 'the error is not |height of the measured row in feet - aim height|')
+        rep.ok('C02.R4', tc.where(loops[0]), f'error = |row height (ft) - sin(look) d| on {n_pass} paths of one pass')
 
 
 TCF = 'py_ballisticcalc/trajectory_calc/_trajectory_calc.py'
